@@ -13,6 +13,8 @@ def _convert_expr(e, variables_dict):
         raise TypeError()
     if isinstance(e, (BoolVar, IntVar)):
         return variables_dict[e.id]
+    elif e.op == Op.BOOL_CONSTANT or e.op == Op.INT_CONSTANT:
+        return e.operands[0]
     else:
         operands = list(map(lambda x: _convert_expr(x, variables_dict), e.operands))
         if e.op == Op.NEG:
